@@ -154,6 +154,9 @@ class Network:
     def _deliver(self, t, payload):
         self.log.append((self.loop.time(), "s>c", payload))
         t.deliver(payload, SIM_ADDR)
+        hook = getattr(self, "on_deliver", None)
+        if hook is not None:
+            hook(t, payload)            # e.g. to send something of the spa's own right BEHIND this datagram
 
     def push(self, tr, payload):
         """unsolicited spa -> client datagram (partial updates)"""
